@@ -41,6 +41,7 @@ class Network:
         self.wire = []           # (src conn, dst conn, data) when not auto
         self.sent = 0
         self.cut = set()         # connections whose traffic is silently discarded (peer vanished)
+        self.check_latency = 0.0 # virtual seconds a connect() spends before it can pair
         self.counter = 0
 
     def register(self, conn):
@@ -132,6 +133,9 @@ class FakeConnection:
             raise ConnectionError("Remote username or password is missing")
         self.checking = True
         loop = asyncio.get_event_loop()
+        if self.net.check_latency:
+            # connectivity checks take time: whoever calls in meanwhile finds ICE "in progress"
+            await asyncio.sleep(self.net.check_latency)
         deadline = loop.time() + 5.0
         while True:
             if self.closed:
